@@ -111,8 +111,8 @@ MUTANTS = [
      "                logger.log(self._error_log_level, s + str(e))",
      "                logger.log(self._error_log_level, s + str(e))\n                return", 300),
     ("c05-step-swallows-stop", "C05", "simulator.py",
-     "        finally:\n            self.fire_timed(self._simulator_time,\n                            Simulator.STOP_EVENT, None)\n            self._run_state = RunState.STOPPED",
-     "        else:\n            self.fire_timed(self._simulator_time,\n                            Simulator.STOP_EVENT, None)\n            self._run_state = RunState.STOPPED", 300),
+     "        finally:\n            self.fire_timed(self._simulator_time,\n                            Simulator.STOP_EVENT, None)\n            # cleanup() or initialize() called",
+     "        else:\n            self.fire_timed(self._simulator_time,\n                            Simulator.STOP_EVENT, None)\n            # cleanup() or initialize() called", 300),
     ("c05-step-typeerror", "C05", "simulator.py",
      "print(\"Simulator step got exception: \" + str(e))", "print(\"Simulator step got exception: \" + e)", 300),
     ("c05-pause-not-honoured", "C05", "simulator.py",
@@ -230,7 +230,9 @@ MUTANTS = [
 EQUIVALENT = [
     ("eq-eventlist-sorted-list", ["C01", "C02"], "eventlist.py",
      "        heapq.heappush(self._event_list, (event.time, -event.priority,\n                                          event._id, event))",
-     "        self._event_list.append((event.time, -event.priority,\n                                          event._id, event))\n        self._event_list.sort(key=lambda e: e[:3])", None),
+     "        self._event_list.append((event.time, -event.priority,\n                                          event._id, event))\n        self._event_list.sort(key=lambda e: e[:3])", 12000),
+    # (12000 runs: a full sort per add makes the rare giant histories, the first of which has
+    # index 12000+ under VERIF_SEED=0, take hours)
     ("eq-variance-two-step", ["C09", "C11"], "statistics.py",
      "            if self._n > 0:\n                return self._m2 / (self._n)",
      "            if self._n > 0:\n                n = self._n\n                return self._m2 / n", None),
@@ -342,7 +344,7 @@ def main():
             finally:
                 shutil.rmtree(d, ignore_errors=True)
     if args.kind in ("all", "equivalent"):
-        for mid, props, fn, old, new, _ in EQUIVALENT:
+        for mid, props, fn, old, new, eq_runs in EQUIVALENT:
             if only and mid not in only:
                 continue
             d = tempfile.mkdtemp(prefix="vfmut.")
@@ -353,7 +355,8 @@ def main():
                     f2, o2, n2 = EXTRA_HEAD[mid]
                     patch(d + "/src/" + CORE + f2, o2, n2)
                 for prop in props:
-                    rc, lines, tail = run_check(d + "/src", prop, QUICK_RUNS[prop])
+                    rc, lines, tail = run_check(d + "/src", prop,
+                                                min(eq_runs or QUICK_RUNS[prop], QUICK_RUNS[prop]))
                     results["equivalent"].append({"id": mid, "property": prop, "green": rc == 0,
                                                   "exit": rc, "first": lines[:2] or tail[-200:]})
                     print("%-36s %s %s exit=%d %s" % (mid, prop, "GREEN" if rc == 0 else "ALARM",
